@@ -134,7 +134,9 @@ theorem crash_only_in_refresh (sp : Spec) (w : World) (ev : Event)
               · rw [checkAffected_crashed]; exact hc
           · split
             · exact hc
-            · split <;> exact hc
+            · split
+              · exact hc
+              · split <;> exact hc
     | rpcResult t ok =>
       apply contra; simp only [step]
       split
